@@ -189,4 +189,12 @@ def dayGuard (s : Inst) (room : Nat) (b : Batch) : Bool :=
   b.edges.all (edgeGuard (st3 Defects.asImplemented s room b) room
     ((st3 Defects.asImplemented s room b).edges ++ b.edges.map (·.row)))
 
+/-- the guard that was needed before /repo 37a7f03 and e73c9e7 -/
+def dayGuardBeforeFixes (s : Inst) (room : Nat) (b : Batch) : Bool :=
+  b.edgeDels.all (edgeDelGuard s room) &&
+  b.nodeDels.all (nodeDelGuard (st1 Defects.beforeFixes s room b) room) &&
+  b.nodes.all (nodeGuardBeforeFixes (st2 Defects.beforeFixes s room b)) &&
+  b.edges.all (edgeGuard (st3 Defects.beforeFixes s room b) room
+    ((st3 Defects.beforeFixes s room b).edges ++ b.edges.map (·.row)))
+
 end Discret.Ingest
